@@ -894,6 +894,18 @@ class FUT:
                 self.fail('next_up|next_down', 'documented ValueError on an infinity not raised: ' + (f'raised {exc}' if exc else 'returned a value'),
                           item, 'ValueError', f'raised {exc}' if exc else show(den(y)) if isinstance(y, Float) else repr(y),
                           carrier=cname, allow_inf=bool(args))
+        # the zero-relative steppers: towards zero from an infinity is the `toward` step, away from it has no answer
+        if top is not None:
+            y, exc = _try(lambda: o.next_towards_zero(x, True))
+            if exc is not None or not self._value_matches(y, top):
+                self.fail('next_towards_zero', 'from an infinity with allow_inf: not the extreme finite value', item, show(top),
+                          f'raised {exc}' if exc else show(den(y)) if isinstance(y, Float) else repr(y), carrier=cname)
+        for fn, nm, args in ((o.next_towards_zero, 'next_towards_zero', ()), (o.next_away_zero, 'next_away_zero', ())):
+            y, exc = _try(lambda: fn(x, *args))
+            if exc != 'ValueError':
+                self.fail(nm, 'documented ValueError on an infinity not raised: ' + (f'raised {exc}' if exc else 'returned a value'),
+                          item, 'ValueError', f'raised {exc}' if exc else show(den(y)) if isinstance(y, Float) else repr(y),
+                          carrier=cname, allow_inf=bool(args))
 
     def check_nan(self, item, x, cname):
         o = self.o
